@@ -103,7 +103,7 @@ def run(ctx):
     ctx.rule = RULE
     ctx.assumptions = ASSUMPTIONS
     binary = build.build("bloch", "asan")
-    n = ctx.n(500, 10000)
+    n = ctx.n(800, 10000)
     core.pmap(lambda i: check_case(ctx, binary, i), range(n))
 
 
